@@ -737,6 +737,92 @@ Section Abstract.
       cbn [expand]. inversion Hge' as [|? ? Hc2 _]; subst. destruct c2 as [|c2]; [lia|]. cbn [repeat app]. destruct Had as [Hab _]. exact Hab.
   Qed.
 
+  (* the instruction starts increase strictly (no uint32 wrap within the program), so adjacent ones differ *)
+  Lemma starts_ge : forall ops e b, straightline ops e -> buf e = Some b -> 0 <= n e <= zlen b -> 0 <= address e ->
+    address e + (n (fst (run ops e)) - n e) < 4294967296 ->
+    forall a, In a (starts ops e) -> address e <= a.
+  Proof.
+    induction ops as [|o r IH]; intros e b Hsl Hb Hn Ha0 Hfit a Hin; [destruct Hin|].
+    cbn [straightline] in Hsl. destruct Hsl as [Hop [Hacc Hr]].
+    assert (Hef : fst (run (o :: r) e) = fst (run r (state_of (exec o e)))).
+    { cbn [run]. destruct (run r (state_of (exec o e))); reflexivity. }
+    rewrite Hef in Hfit.
+    assert (Hq : (forall k d l t g, o <> OIns k d l t g) -> address e <= a).
+    { intro Hni. destruct (quiet_op o e Hop Hni) as [A [B [C _]]].
+      assert (Hst : starts (o :: r) e = starts r (state_of (exec o e))).
+      { cbn [starts]. destruct o; try reflexivity. exfalso. eapply Hni. reflexivity. }
+      rewrite Hst in Hin. rewrite <- C.
+      apply (IH _ b); try assumption; rewrite ?A, ?B, ?C; assumption. }
+    destruct o as [a1|c|c|k d l t g|bs|id|l]; try (apply Hq; intros; discriminate).
+    clear Hq. cbn [sl_op] in Hop. destruct Hop as [opc [rest [Hd [_ [_ [Hlen _]]]]]].
+    destruct (exec_ins_spec k d l t g e b Hb Hacc) as [_ [Hroom [B1 [N1 [A1 _]]]]].
+    set (e' := state_of (exec (OIns k d l t g) e)) in *.
+    pose proof (zlen_nonneg _ rest) as Hrest0.
+    assert (Hdl : zlen d = 1 + zlen rest) by (rewrite Hd; apply zlen_cons).
+    assert (Hne' : n e' <= n (fst (run r e'))).
+    { destruct (code_prefix_stable r e' (splice b (n e) d) Hr B1) as [bf1 [_ [_ [H1 _]]]]; [rewrite N1, zlen_splice by lia; lia | lia]. }
+    assert (Ha' : address e' = address e + zlen d) by (rewrite A1, Hlen; apply w32_small; lia).
+    cbn [starts app] in Hin. fold e' in Hin. destruct Hin as [<-|Hin]; [lia|].
+    assert (address e' <= a); [|lia].
+    apply (IH e' (splice b (n e) d)); try assumption; [rewrite N1, zlen_splice by lia; lia | lia | lia].
+  Qed.
+
+  Lemma starts_adjacent : forall ops e b, straightline ops e -> buf e = Some b -> 0 <= n e <= zlen b -> 0 <= address e ->
+    address e + (n (fst (run ops e)) - n e) < 4294967296 -> adjacent_differ (starts ops e).
+  Proof.
+    induction ops as [|o r IH]; intros e b Hsl Hb Hn Ha0 Hfit; [exact I|].
+    cbn [straightline] in Hsl. destruct Hsl as [Hop [Hacc Hr]].
+    assert (Hef : fst (run (o :: r) e) = fst (run r (state_of (exec o e)))).
+    { cbn [run]. destruct (run r (state_of (exec o e))); reflexivity. }
+    rewrite Hef in Hfit.
+    assert (Hq : (forall k d l t g, o <> OIns k d l t g) -> adjacent_differ (starts (o :: r) e)).
+    { intro Hni. destruct (quiet_op o e Hop Hni) as [A [B [C _]]].
+      assert (Hst : starts (o :: r) e = starts r (state_of (exec o e))).
+      { cbn [starts]. destruct o; try reflexivity. exfalso. eapply Hni. reflexivity. }
+      rewrite Hst. apply (IH _ b); try assumption; rewrite ?A, ?B, ?C; assumption. }
+    destruct o as [a1|c|c|k d l t g|bs|id|l]; try (apply Hq; intros; discriminate).
+    clear Hq. cbn [sl_op] in Hop. destruct Hop as [opc [rest [Hd [_ [_ [Hlen _]]]]]].
+    destruct (exec_ins_spec k d l t g e b Hb Hacc) as [_ [Hroom [B1 [N1 [A1 _]]]]].
+    set (e' := state_of (exec (OIns k d l t g) e)) in *.
+    pose proof (zlen_nonneg _ rest) as Hrest0.
+    assert (Hdl : zlen d = 1 + zlen rest) by (rewrite Hd; apply zlen_cons).
+    assert (Hne' : n e' <= n (fst (run r e'))).
+    { destruct (code_prefix_stable r e' (splice b (n e) d) Hr B1) as [bf1 [_ [_ [H1 _]]]]; [rewrite N1, zlen_splice by lia; lia | lia]. }
+    assert (Ha' : address e' = address e + zlen d) by (rewrite A1, Hlen; apply w32_small; lia).
+    assert (Hn' : 0 <= n e' <= zlen (splice b (n e) d)) by (rewrite N1, zlen_splice by lia; lia).
+    pose proof (IH e' (splice b (n e) d) Hr B1 Hn' ltac:(lia) ltac:(lia)) as Hadj.
+    pose proof (starts_ge r e' (splice b (n e) d) Hr B1 Hn' ltac:(lia) ltac:(lia)) as Hge.
+    cbn [starts app]. fold e'. destruct (starts r e') as [|a2 st2] eqn:Est; [exact I|].
+    split; [|exact Hadj]. specialize (Hge a2 (or_introl eq_refl)). lia.
+  Qed.
+
+  (* the stuttering theorem in the form "fetch addresses with consecutive duplicates removed = the instruction starts" *)
+  Theorem C07_couple_moves_dedup : forall ops e0 b s0 N,
+    straightline ops e0 -> buf e0 = Some b -> 0 <= n e0 <= zlen b ->
+    let ef := fst (run ops e0) in
+    let bank := address e0 / 65536 in
+    0 <= address e0 < 16777216 ->
+    address e0 + (n ef - n e0) <= (bank + 1) * 65536 ->
+    (forall i, 0 <= i < n ef - n e0 -> hole ops e0 (n e0 + i) = false -> gmem s0 (address e0 + i) = znth (Bytes ef) (n e0 + i)) ->
+    ok s0 -> addr24 (grk s0) (gpc s0) = address e0 -> gm s0 = mbit e0 -> gx s0 = xbit e0 ->
+    nowrite N s0 (address e0) (address e0 + (n ef - n e0)) ->
+    nottaken N s0 ->
+    exists k j l sf, (k <= N)%nat /\ fetches k s0 = Some (l, sf) /\ dedup l = firstn j (starts ops e0) /\
+      ((dedup l = starts ops e0 /\ gm sf = mbit ef /\ gx sf = xbit ef /\ gpc sf = address ef mod 65536 /\ grk sf = bank) \/ k = N).
+  Proof.
+    intros ops e0 b s0 N Hsl Hb Hn ef bank Ha Hfit Hload Hok Hstart Hm Hx Hnw Hnt.
+    destruct (C07_couple_moves ops e0 b s0 N Hsl Hb Hn Ha Hfit Hload Hok Hstart Hm Hx Hnw Hnt)
+      as [k [cs [l [sf [Hk [Hf [Hl [Hlen [Hge [_ Hfin]]]]]]]]]].
+    assert (Hbk : 0 <= bank < 256).
+    { unfold bank. split; [apply Z.div_pos; lia | apply Z.div_lt_upper_bound; lia]. }
+    assert (Hadj : adjacent_differ (starts ops e0)).
+    { apply (starts_adjacent ops e0 b Hsl Hb Hn); [lia|]. fold ef. nia. }
+    assert (Hd : dedup l = firstn (List.length cs) (starts ops e0)) by (rewrite Hl; apply dedup_expand; assumption).
+    exists k, (List.length cs), l, sf. split; [exact Hk|]. split; [exact Hf|]. split; [exact Hd|].
+    destruct Hfin as [[Hc [_ [Q2 [Q3 [Q4 Q5]]]]]|Hfin]; [left | right; exact Hfin].
+    split; [rewrite Hd, Hc; apply firstn_all|]. fold ef in Q3, Q4, Q5. repeat split; assumption.
+  Qed.
+
   (* the exact theorems (fetch addresses = starts) do not admit block moves: those stutter, see C07_couple_moves *)
   Hypothesis Hnomv : forall op, move_op op = true -> brs op = false.
 
